@@ -153,3 +153,58 @@ TEST_CRATES = ("sos_test_utils", "sos_unit_tests", "sos_integration_tests",
 
 def short(path, n=110):
     return path if len(path) <= n else path[:n] + "…"
+
+
+def result_branches(body, bi):
+    """For the call in block `bi` whose (awaited) Result is either tested
+    with `?` or matched: ([ok start blocks], [err start blocks]) or None."""
+    at = await_try(body, bi)
+    if at and at.cont is not None and at.brk is not None:
+        return [at.cont], [at.brk]
+    # match on the result: first enum switch over Result reached through noise
+    sc = cfg.succs(body)
+    seen = {bi}
+    dq = deque(sc[bi])
+    while dq:
+        b = dq.popleft()
+        if b in seen:
+            continue
+        seen.add(b)
+        es = cfg.enum_switch(body, b)
+        if es and es.enum == "core::result::Result" and "Ok" in es.targets and "Err" in es.targets:
+            return [es.targets["Ok"]], [es.targets["Err"]]
+        t = body.blocks[b].get("term")
+        if t and t["k"] == "call" and not is_noise(t):
+            continue
+        for n in sc[b]:
+            if n not in seen:
+                dq.append(n)
+    return None
+
+
+IGNORED_IN_DELEGATES = {"pin", "new", "into", "from", "map_err", "clone", "as_ref", "boxed", "map", "ok", "await"}
+
+
+def delegation_report(ws, impl, skip=()):
+    """For an enum-dispatch impl: per method, the names of the real calls.
+    Returns list of (method, fn, ok, detail)."""
+    out = []
+    for it in impl["items"]:
+        if it["kind"] != "Fn" and "Fn" not in it["kind"]:
+            continue
+        fn = ws.fns.get(it["path"])
+        if fn is None or it["name"] in skip:
+            continue
+        body = cfg.code_body(ws, fn)
+        live = cfg.live_blocks(body)
+        names = []
+        for _i, t in real_calls(body, live):
+            n = cname(t)
+            if n in IGNORED_IN_DELEGATES:
+                continue
+            names.append(n)
+        # closures nested in the body (map_err etc.) are not followed
+        sw = [es for es in cfg.enum_switches(body)
+              if es.enum and es.enum == impl.get("self_adt")]
+        out.append((it["name"], fn, body, names, sw))
+    return out
